@@ -11,7 +11,7 @@ per mutant and check: exit code (0 = not seen, 1 = VIOLATION, 2 = machinery fail
 whether the VIOLATION came with a failing input, and the failing clause.  Survivors (every check exit 0) are either
 equivalent mutants or behaviour no check looks at: they are listed with the mutated text for triage.
 This is a measuring instrument for the correspondence tie, not a check: nothing in MANIFEST.json runs it."""
-import ast, json, os, subprocess, sys, hashlib, tempfile, shutil, time
+import ast, json, os, signal, subprocess, sys, hashlib, tempfile, shutil, time
 
 
 def arg(name, default=None):
@@ -127,11 +127,22 @@ def run_check(prop):
     shutil.rmtree(rp, ignore_errors=True)
     env = dict(os.environ, PYRTMA_REPO=wt, VERIF_EVIDENCE_DIR=ev, VERIF_REPLAYS_DIR=rp, VERIF_NOCACHE="1")
     t0 = time.time()
+    # own session: on a time-out the whole process group goes (a mutant that loops for ever inside a worker pool would
+    # otherwise leave the workers spinning)
+    p = subprocess.Popen([os.path.join(VERIF, "check"), prop], stdout=subprocess.PIPE, stderr=subprocess.STDOUT, text=True,
+                         env=env, cwd=VERIF, start_new_session=True)
     try:
-        p = subprocess.run([os.path.join(VERIF, "check"), prop], capture_output=True, text=True, env=env, timeout=timeout, cwd=VERIF)
-        rc, text = p.returncode, p.stdout + p.stderr
+        text, _ = p.communicate(timeout=timeout)
+        rc = p.returncode
     except subprocess.TimeoutExpired:
         rc, text = 2, "timeout"
+    finally:
+        try:
+            os.killpg(p.pid, signal.SIGKILL)
+        except (ProcessLookupError, PermissionError):
+            pass
+        if rc == 2 and text == "timeout":
+            p.communicate()
     r = {"rc": rc, "s": round(time.time() - t0)}
     vl = [l for l in text.splitlines() if l.startswith("VIOLATION")]
     if vl:
